@@ -7,6 +7,7 @@ import (
 	"go/token"
 	"go/types"
 	"reflect"
+	"regexp"
 	"strings"
 
 	"golang.org/x/tools/go/ssa"
@@ -1288,4 +1289,194 @@ func rulePathValidator(c *Ctx) {
 		return
 	}
 	c.check(len(bad) == 0, "path-validator", "config.xURLPath", c.P.pos(lits[0].Pos()), fmt.Sprintf("%d accepting paths, each has established a leading '/'", n), strings.Join(uniq(bad), " || "), n)
+}
+
+// ruleShardStateless: choosing the shard of a key (hashing it) uses no mutable
+// package-level state: the choice is made before the shard lock is taken, by
+// many requests at once.
+func ruleShardStateless(c *Ctx) {
+	root := c.P.Method("cache", "dispatcher", "getLRU")
+	if root == nil {
+		c.undecided("shard-stateless", "dispatcher.getLRU", "-", "not found")
+		return
+	}
+	n := 0
+	bad := []string{}
+	for f := range staticScope(root, "cache", 4) {
+		n++
+		for _, b := range f.Blocks {
+			for _, in := range b.Instrs {
+				var ops [8]*ssa.Value
+				for _, op := range in.Operands(ops[:0]) {
+					g, ok := (*op).(*ssa.Global)
+					if !ok || g.Pkg == nil || !strings.HasPrefix(g.Pkg.Pkg.Path(), pkgPath("")) {
+						continue
+					}
+					if isErrorType(derefType(g.Type())) || c.P.constAggregate(g.Object()) != nil {
+						continue
+					}
+					if ld, isLoad := in.(*ssa.UnOp); isLoad && ld.Op == token.MUL && !writtenOutsideInit(c.P, g) {
+						// a variable assigned once at start-up: fine unless it is an object with internal state
+						if _, isIface := derefType(g.Type()).Underlying().(*types.Interface); !isIface {
+							if _, isPtr := derefType(g.Type()).Underlying().(*types.Pointer); !isPtr {
+								continue
+							}
+						}
+					}
+					bad = append(bad, fmt.Sprintf("%s: %s uses the package-level variable %s while choosing a key's shard: concurrent lookups share its state with no lock, so a key can be sent to the wrong shard (a second entry, and a second fetch, for the same key)", c.P.pos(in.Pos()), funcName(f), g.Name()))
+				}
+			}
+		}
+	}
+	c.check(len(bad) == 0, "shard-stateless", funcName(root), c.P.pos(root.Pos()), fmt.Sprintf("%d functions on the way to the shard index use no shared mutable state", n), strings.Join(uniq(bad), " || "), n)
+}
+
+// ruleStoreCtorNilOnError: a store constructor hands out a store only together
+// with a nil error (the dispatcher keeps any non-nil store it is given).
+func ruleStoreCtorNilOnError(c *Ctx) {
+	n := 0
+	bad := []string{}
+	for _, f := range c.P.allFuncs {
+		if !inPkg(f, "store") || f.Parent() != nil || f.Signature.Results().Len() != 2 {
+			continue
+		}
+		res := f.Signature.Results()
+		if !isErrorType(res.At(1).Type()) || !strings.HasSuffix(res.At(0).Type().String(), "store.Store") && !strings.Contains(res.At(0).Type().String(), "Store") {
+			continue
+		}
+		c.P.Simulate(f, SimConfig{}, func(pr *PathResult) {
+			if pr.Exit != "return" || len(pr.Results) != 2 {
+				return
+			}
+			n++
+			st, err := pr.Results[0], pr.Results[1]
+			if st.IsNil() || err.IsNil() {
+				return
+			}
+			if k, isNil := pr.Facts.Decide(eqTerm(err, nilTerm(nil))); k && isNil {
+				return
+			}
+			if k, isNil := pr.Facts.Decide(eqTerm(st, nilTerm(st.Type))); k && isNil {
+				return
+			}
+			// both handed through from one call (NewStore returning newXStore's pair)
+			if st.Op == "ext" && err.Op == "ext" && len(st.Args) == 1 && len(err.Args) == 1 && st.Args[0].Key() == err.Args[0].Key() {
+				return
+			}
+			bad = append(bad, fmt.Sprintf("%s can return a store together with a possibly non-nil error on path [%s]: the dispatcher logs the error and keeps the half-built store, and the first lookup panics inside the entry lock", funcName(f), condString(pr.Conds)))
+		})
+	}
+	if n < 4 {
+		c.undecided("store-ctor-nil-on-error", "store", "-", fmt.Sprintf("only %d constructor paths found", n))
+		return
+	}
+	c.check(len(bad) == 0, "store-ctor-nil-on-error", "store", "store/store.go", fmt.Sprintf("%d return paths of the store constructors: a store only with a nil error", n), strings.Join(uniq(bad), " || "), n)
+}
+
+// ruleGetVisitsAll: Locations.Get gives up (returns nil) only after the whole
+// sorted list was visited.
+func ruleGetVisitsAll(c *Ctx) {
+	fn := c.P.Method("location", "Locations", "Get")
+	if fn == nil {
+		c.undecided("get-visits-all", "Locations.Get", "-", "not found")
+		return
+	}
+	n := 0
+	bad := []string{}
+	for f := range staticScope(fn, "location", 2) {
+		if f != fn && !isHelper(f) {
+			continue
+		}
+		done := map[*ssa.BasicBlock]bool{}
+		for _, b := range f.Blocks {
+			if done[b] {
+				continue
+			}
+			scc := cycleOf(b)
+			if scc == nil {
+				continue
+			}
+			var header *ssa.BasicBlock
+			for x := range scc {
+				done[x] = true
+				for _, p := range x.Preds {
+					if !scc[p] {
+						header = x
+					}
+				}
+			}
+			for x := range scc {
+				for _, y := range x.Succs {
+					if scc[y] || x == header {
+						continue
+					}
+					n++
+					ret, isRet := y.Instrs[len(y.Instrs)-1].(*ssa.Return)
+					if isRet && len(ret.Results) == 1 {
+						if k, ok := ret.Results[0].(*ssa.Const); !ok || !k.IsNil() {
+							continue // leaves with what it found
+						}
+						if _, isBool := ret.Results[0].Type().Underlying().(*types.Basic); isBool {
+							continue
+						}
+					}
+					bad = append(bad, fmt.Sprintf("%s: %s leaves the walk over the sorted list early without a match: a listed, matching location further down is never looked at and the request is answered 503", c.P.pos(x.Instrs[len(x.Instrs)-1].Pos()), funcName(f)))
+				}
+			}
+		}
+	}
+	c.check(len(bad) == 0, "get-visits-all", funcName(fn), c.P.pos(fn.Pos()), fmt.Sprintf("%d exits from inside the walk, each with a match", n), strings.Join(uniq(bad), " || "), n+1)
+}
+
+// ruleWildcardGroup: the capture group a rewrite wildcard is turned into
+// matches the empty remainder too ("/api/*" applies to "/api/").
+func ruleWildcardGroup(c *Ctx) {
+	fn := c.P.Func("location", "generateURLRewriter")
+	if fn == nil {
+		c.undecided("wildcard-group", "location.generateURLRewriter", "-", "not found")
+		return
+	}
+	n := 0
+	bad := []string{}
+	for f := range staticScope(fn, "location", 2) {
+		for _, b := range f.Blocks {
+			for _, in := range b.Instrs {
+				call, ok := in.(*ssa.Call)
+				if !ok {
+					continue
+				}
+				sc := call.Call.StaticCallee()
+				if sc == nil || (sc.String() != "strings.Replace" && sc.String() != "strings.ReplaceAll") {
+					continue
+				}
+				from, ok1 := call.Call.Args[1].(*ssa.Const)
+				to, ok2 := call.Call.Args[2].(*ssa.Const)
+				if !ok1 || !ok2 {
+					continue
+				}
+				fs, _ := constTerm(from.Value, from.Type()).StrVal()
+				ts, _ := constTerm(to.Value, to.Type()).StrVal()
+				if fs != "*" {
+					continue
+				}
+				n++
+				re, err := regexp.Compile("^" + ts + "$")
+				switch {
+				case err != nil:
+					bad = append(bad, fmt.Sprintf("%s: the wildcard is replaced by %q, which is not a valid pattern", c.P.pos(call.Pos()), ts))
+				case re.NumSubexp() != 1:
+					bad = append(bad, fmt.Sprintf("%s: the wildcard is replaced by %q, which is not one capture group", c.P.pos(call.Pos()), ts))
+				case !re.MatchString(""):
+					bad = append(bad, fmt.Sprintf("%s: the wildcard is replaced by %q, which does not match an empty remainder: \"/api/*\" no longer applies to \"/api/\" and the upstream gets the unrewritten path", c.P.pos(call.Pos()), ts))
+				case !re.MatchString("a/b.c-d"):
+					bad = append(bad, fmt.Sprintf("%s: the wildcard is replaced by %q, which does not match an ordinary path remainder", c.P.pos(call.Pos()), ts))
+				}
+			}
+		}
+	}
+	if n == 0 {
+		c.undecided("wildcard-group", funcName(fn), c.P.pos(fn.Pos()), "no replacement of '*' by a constant found")
+		return
+	}
+	c.check(len(bad) == 0, "wildcard-group", funcName(fn), c.P.pos(fn.Pos()), fmt.Sprintf("%d wildcard replacements: one capture group that also matches the empty remainder", n), strings.Join(uniq(bad), " || "), n)
 }
